@@ -133,8 +133,8 @@ def strategy_(draw, tier):
     ov = draw(st.integers(0, 20))  # a third of the graphs declare non-zero link overlaps (carried, never interpreted)
     return {"gfa": gen_graph.gfa_text(g, with_seq=True, order_seed=draw(st.integers(0, 99)),
                                       overlap_seed=ov if ov < 7 else None), "gaf": lines,
-            "fasta": "".join(fasta), "cores": draw(st.integers(1, 2)), "batch": draw(st.integers(1, 3)),
-            "kind": "sim", "long": long_class, "via": draw(st.sampled_from(["api", "api", "cli"]))}
+            "fasta": rc.wrap_fasta("".join(fasta), draw(st.sampled_from([None, None, 60, 7, 3]))), "cores": draw(st.integers(1, 2)), "batch": draw(st.integers(1, 3)),
+            "kind": "sim", "long": long_class, "via": draw(st.sampled_from(["api", "api", "cli", "cli_stdout"]))}
 
 
 def strategy(tier):
@@ -198,13 +198,7 @@ def replay(cigar, read, ref):
 
 def run_case(case):
     nodes, _ = models.nodes_from_gfa_text(case["gfa"])
-    reads = {}
-    name = None
-    for l in case["fasta"].split("\n"):
-        if l.startswith(">"):
-            name = l[1:]
-        elif l:
-            reads[name] = l
+    reads = rc.parse_fasta(case["fasta"])
     rec = Recorder()
     with core.workdir() as d:
         if case.get("kind") == "real":
@@ -293,6 +287,8 @@ def run_case(case):
         cl.add("consecutive_records_of_one_read")
     if case.get("kind") == "real":
         cl.add("real_processes")
+    if any(len(l) in (3, 7, 60) for l in case["fasta"].split("\n")[:-1]) and "\n".join(case["fasta"].split("\n")[1:3]).count(">") == 0:
+        cl.add("wrapped_fasta")
     if any(l.startswith("L\t") and l.split("\t")[5] != "0M" for l in case["gfa"].split("\n")):
         cl.add("links_with_nonzero_overlap")
     return core.Result(nontrivial, sorted(cl))
@@ -358,6 +354,48 @@ def enumerations(tier, shard, nshards):
             line = "vl%d\t%d\t3\t%d\t+\t>v1\t%d\t50\t%d\t%d\t%d\t60\tcg:Z:%s" % (
                 seed, len(segment) + 6, 3 + len(segment), n, n - 20, sum(k for k, o in ops if o == "="), sum(k for k, o in ops), cg)
             yield {"gfa": gfa, "gaf": [line], "fasta": ">vl%d\nAAA%sTTT\n" % (seed, segment), "cores": 1, "batch": 1, "kind": "sim"}
+
+    def shifted():
+        # read slice = one foreign base + the path slice without its last base, given as 1I(n-1)=1D (cost 16): for n <= 3 the
+        # optimum is n mismatches (no '=' column at all), for n = 4 the two alignments tie, for n >= 5 the input is optimal;
+        # plus the same pairs given as all-insertion/all-deletion (no matches in the input)
+        rnd = random.Random(77)
+        seqs = []
+        for n in (1, 2, 3, 4, 5, 6):
+            for _ in range(6):
+                p = [rnd.choice("ACGT")]
+                while len(p) < n:
+                    p.append(rnd.choice([b for b in "ACGT" if b != p[-1]]))  # no two adjacent bases equal
+                seqs.append("".join(p))
+        for rev in (False, True):
+            node = "GG" + "TT".join(seqs) + "CC"
+            gfa = "S\tv1\t%s\tLN:i:%d\tSN:Z:chr1\tSO:i:0\tSR:i:0\n" % (node, len(node))
+            gaf, fa = [], []
+            pos = 2
+            for k, p in enumerate(seqs):
+                n = len(p)
+                first = rnd.choice([b for b in "ACGT" if b != p[0]])
+                want = first + p[:-1]        # read slice in path orientation
+                ps, pe = pos, pos + n
+                pos += n + 2
+                if rev:
+                    # the same locus seen through <v1: path offsets count from the other end, bases are complemented
+                    total = len(node)
+                    ps, pe = total - pe, total - ps
+                    target = models.revcomp(p)
+                    first_r = rnd.choice([b for b in "ACGT" if b != target[0]])
+                    want = first_r + target[:-1]
+                for style in ("shift", "indel"):
+                    name = "sh%d%s%s" % (k, style[0], "r" if rev else "f")
+                    cg = ("1I%s1D" % ("%d=" % (n - 1) if n > 1 else "")) if style == "shift" else "%dI%dD" % (n, n)
+                    m = n - 1 if style == "shift" else 0
+                    gaf.append("%s\t%d\t1\t%d\t+\t%sv1\t%d\t%d\t%d\t%d\t%d\t60\tcg:Z:%s" % (
+                        name, n + 2, n + 1, "<" if rev else ">", len(node), ps, pe, m, n + 1 if style == "shift" else 2 * n, cg))
+                    fa.append(">%s\nA%sA\n" % (name, want))
+            yield {"gfa": gfa, "gaf": gaf, "fasta": "".join(fa), "cores": 1, "batch": 50, "kind": "sim"}
+
+    yield ("shifted slices of 1-6 bases (optimum without any '=' column, exact cost ties, input already optimal), forward and reverse",
+           shifted(), True)
 
     yield ("reads of 16 000 and 20 000 bases with six indels of 100-200 bp", verylong(), True)
 
